@@ -16,6 +16,7 @@ from typing import Any, Dict, List
 import anyio
 
 from .. import core, explorer, sched
+from ..jsonrpc_ref import strict_eq
 from ..vloop import new_loop
 
 RUN = "vf.checks.c18:run_one"
@@ -49,7 +50,7 @@ def run_one(ctl: explorer.Ctl, cfg: Dict[str, Any]) -> Dict[str, Any]:
     delivered: Dict[str, float] = {}
     st: Dict[str, Any] = {"scheduled": False, "stopped": False, "notes": 0, "answered": []}
     auto_ids = cfg.get("ids") == "auto"
-    ids: List[Any] = [None] * k if auto_ids else [f"call-{i}" for i in range(k)]
+    ids: List[Any] = [None] * k if auto_ids else list(cfg.get("id_values") or [f"call-{i}" for i in range(k)])
     results: Dict[int, Any] = {}
 
     def learn_ids():
@@ -338,6 +339,13 @@ def run_per_request(ctl: explorer.Ctl, cfg: Dict[str, Any]) -> Dict[str, Any]:
 
     ids = [PR_IDS[k] for k in cfg["ids"]]
     k = len(ids)
+    shape = cfg.get("result", "obj")
+
+    def res(i):
+        # results need not be JSON objects
+        return {"obj": {"for": i}, "list": ["for", i], "str": f"for-{i}", "num": 100 + i, "float": i + 0.5, "true": True,
+                "false": False, "zero": 0, "empty-str": "", "empty-list": [], "empty-obj": {}, "nested-list": [[i], {"for": i}]}[shape]
+
     loop = new_loop(horizon=30)
     proc = seams.FakeProcess()
     seen: List[Any] = []
@@ -366,7 +374,7 @@ def run_per_request(ctl: explorer.Ctl, cfg: Dict[str, Any]) -> Dict[str, Any]:
         st["answered"] = True
         order = perms[ctl.choose(len(perms), "answer-order")]
         grouping = ctl.choose(2, "grouping")
-        lines = [(json.dumps({"jsonrpc": "2.0", "id": ids[i], "result": {"for": i}}) + "\n").encode() for i in order]
+        lines = [(json.dumps({"jsonrpc": "2.0", "id": ids[i], "result": res(i)}) + "\n").encode() for i in order]
         note = (json.dumps({"jsonrpc": "2.0", "method": "notifications/message", "params": {}}) + "\n").encode()
         if grouping == 0:
             proc.stdout.feed(note + b"".join(lines))
@@ -411,10 +419,10 @@ def run_per_request(ctl: explorer.Ctl, cfg: Dict[str, Any]) -> Dict[str, Any]:
         kind, v = results.get(i, ("missing", None))
         summary.append(kind)
         if kind == "result":
-            if v.get("result") != {"for": i} or type(v.get("id")) is not type(ids[i]) or v.get("id") != ids[i]:
+            if not strict_eq(v.get("result"), res(i)) or type(v.get("id")) is not type(ids[i]) or v.get("id") != ids[i]:
                 viol.append({"sig": {"class": "cross-talk", "part": "per-request"}, "msg": f"cfg={cfg}: caller {i} (id {ids[i]!r}) got {v}"})
         else:
-            viol.append({"sig": {"class": "lost-response", "part": "per-request", "id_kind": cfg["ids"][i]},
+            viol.append({"sig": {"class": "lost-response", "part": "per-request", "id_kind": cfg["ids"][i], **({"result": shape} if shape != "obj" else {})},
                          "msg": f"cfg={cfg}: caller {i} waiting on the request stream for id {ids[i]!r} ended with {kind}; "
                                 f"main stream saw {[m.get('id') for m in main_stream]}"})
     got_ids = [m.get("id") for m in main_stream if "method" not in m]
@@ -582,6 +590,11 @@ def configs_for(tier: str):
         {"k": 2, "T": T, "notes": 1, "rich": False, "starts": s, "ids": "auto", "write": w}
         for T in ([1.0, 1.0], [0.3, 1.2]) for s in ([0.0, 0.0], [0.0, 0.1]) for w in ("same", "clone")
     ]
+    # ids that differ only in JSON type (or only after conversion to text) belong to different requests
+    parts["k2-ids-equal-as-text"] = [
+        {"k": 2, "T": [1.0, 1.0], "notes": 0, "rich": False, "starts": s, "id_values": iv}
+        for s in ([0.0, 0.0], [0.0, 0.1]) for iv in (["7", 7], [7, "7"], ["10", 10])
+    ]
     parts["k3-auto-ids"] = [
         {"k": 3, "T": [1.0, 1.0, 1.0], "notes": 0, "rich": False, "starts": [0.0, 0.0, 0.0], "ids": "auto", "write": w}
         for w in ("same", "clone")
@@ -611,6 +624,8 @@ def run(tier: str, only=None) -> core.Result:
         sched.debug_pass(res, "stdio-carrier", RUN_STDIO, scfgs)
     import itertools as _it
     prcfgs = [{"ids": list(c)} for n in (2, 3) for c in _it.combinations(PR_IDS, n) if not ({"int", "digits"} <= set(c))]
+    prcfgs += [{"ids": idl, "result": sh} for idl in (["str", "int"], ["zero", "empty", "neg"])
+               for sh in ("list", "str", "num", "float", "true", "false", "zero", "empty-str", "empty-list", "empty-obj", "nested-list")]
     if not only or "per-request" in only:
         out = explorer.explore(RUN_PR, prcfgs, fidelity=True)
         sched.absorb(res, "per-request-streams", RUN_PR, out, prcfgs, min_outcomes=1)
